@@ -29,7 +29,7 @@ func convertStringIndex(rawIndex any, s string) (int, int, error) {
 	}
 	// Not slice
 	r, size := utf8.DecodeRuneInString(s[index.Lower:])
-	if r == utf8.RuneError {
+	if r == utf8.RuneError && size == 1 {
 		return 0, 0, errIndexNotAtRuneBoundary
 	}
 	return index.Lower, index.Lower + size, nil
@@ -39,14 +39,14 @@ func startsWithRuneBoundary(s string) bool {
 	if s == "" {
 		return true
 	}
-	r, _ := utf8.DecodeRuneInString(s)
-	return r != utf8.RuneError
+	r, size := utf8.DecodeRuneInString(s)
+	return !(r == utf8.RuneError && size == 1)
 }
 
 func endsWithRuneBoundary(s string) bool {
 	if s == "" {
 		return true
 	}
-	r, _ := utf8.DecodeLastRuneInString(s)
-	return r != utf8.RuneError
+	r, size := utf8.DecodeLastRuneInString(s)
+	return !(r == utf8.RuneError && size == 1)
 }
